@@ -78,6 +78,7 @@ impl Report {
         ordinal: u64,
     ) {
         self.violation_count += 1;
+        crate::util::watch::note_violation(oracle, &witness);
         if let Some(v) = self
             .violations
             .iter_mut()
